@@ -2,7 +2,7 @@
 import copy
 from trees import *
 
-RULE = ("two seeded streams: (1) random validated models (all value/sign combinations, mixed atom/compound children, integer leaves incl. "
+RULE = ("Not(x) of bare variables (every kind of bounds) and small compounds against the model it negates; two seeded streams: (1) random validated models (all value/sign combinations, mixed atom/compound children, integer leaves incl. "
         "negative bounds, explicit/generated ids), (2) a targeted stream of positively signed nodes over compound and atom children with every value / atom-bounds combination (boolean, non-negative integer, negative, degenerate), alone, nested, and under Any / Imply; negate() output compared structurally (ids, bounds, sign, value, "
         "children order, generated flag) with the model; all (<=512 quick, <=1024 thorough, else that many sampled incl. corners) in-bounds leaf assignments evaluated on the "
         "original and on the negation by the real evaluate; non-trivial = has a compound child or an integer leaf")
@@ -10,6 +10,8 @@ ASSUMPTIONS = ["validated, reference-free models", "assignments within declared 
 
 
 def do_case(ctx, inp):
+    if "not_of" in inp:
+        return do_not_case(ctx, inp)
     a = inp["ast"]
     o = build(a)
     t = snap(o)
@@ -37,6 +39,23 @@ def do_case(ctx, inp):
         ctx.fail("negation-leaves-solver-safe-form", {"negated_model": tn})
     if not t["gen"] and tn["id"] != t["id"]:
         ctx.fail("explicit-id-lost", {"id": t["id"], "negated_id": tn["id"]})
+
+
+def do_not_case(ctx, inp):
+    """`Not(x)`: for a sub-proposition x the complement of x, for a bare variable x the complement of All(x) ("x >= 1")"""
+    x = inp["not_of"]
+    xo = build(x)
+    base = pg.All(xo) if (isinstance(xo, str) or is_var(xo)) else xo
+    n = pg.Not(build(x))
+    tb, tn = snap(base), snap(n)
+    lv = leaves_of(tb)
+    ctx.case(inp, nontrivial=True, tags={"Not-of-atom" if tb is not None and x["c"] in ("var", "str") else "Not-of-compound"})
+    ctx.op({"op": "build", "ast": {"c": "Not", "arg": x}}, {"t": tn}, label="build-Not")
+    for sigma in assignments(ctx.rng, lv, 256):
+        v0 = base.evaluate(sigma).constant
+        v1 = n.evaluate(sigma).constant
+        if v0 is None or v1 is None or v1 != 1 - v0 or v0 != ref_eval(tb, sigma):
+            ctx.fail("negation-not-complement", {"Not_of": x, "sigma": sigma, "original": v0, "negated": v1, "negated_model": tn}); return
 
 
 ATOM_BOUNDS = [(0, 1), (0, 1), (0, 2), (0, 3), (1, 3), (-1, 1), (-2, 0), (2, 2), (0, 5)]
@@ -102,6 +121,16 @@ def small_scope_cases(ctx):
 def run(ctx):
     small_scope_cases(ctx)
     n_models = (150 if ctx.quick else 1200) * (3 if ctx.search else 1)
+    for _ in range(n_models // 3):
+        # Not(...) of bare variables with every kind of bounds, and of small compounds
+        lo, hi = ctx.rng.choice(ATOM_BOUNDS + [(-3, 0), (1, 4), (1, 1), (-2, 2), (-1, 0)])
+        x = {"c": "var", "id": "t", "lo": lo, "hi": hi}
+        r = ctx.rng.random()
+        if r < 0.15: x = {"c": "str", "id": "t"}
+        elif r < 0.4:
+            x = {"c": ctx.rng.choice(["Any", "All", "AtMost"]), "args": [x, {"c": "str", "id": "u"}]}
+            if x["c"] == "AtMost": x["v"] = ctx.rng.randint(0, 2)
+        do_case(ctx, {"not_of": x})
     for _ in range(n_models):
         a, o, t = gen_valid(ctx.rng, ctx.quick, wide_p=0.02)
         do_case(ctx, {"ast": a})
